@@ -15,6 +15,7 @@
 -/
 import Rbgp.Wire.Nlri3
 import Rbgp.Wire.Spec
+import Rbgp.Wire.Stream
 namespace Rbgp.Wire.Sess
 open Rbgp.Wire
 
@@ -96,5 +97,49 @@ def checkSess (eof : Bool) (o : SObs) : Verdict :=
       else if eof && st != .closed then .fail 0 "session-kept-after-the-peer-closed"
       else if !(o.notifs.all fun n => [1, 2, 3, 5, 7].contains n.1) then .fail 0 "notification-code-not-a-protocol-error"
       else .ok
+
+/-! ## RTR: the client loop of daemon/src/rpki.rs (`RpkiClient::serve_inner`) over the real `Framed<_, RtrCodec>`
+
+  The loop takes PDUs from `Framed::next()` until a decode error or the end of the stream, and counts the ones it
+  received (`RpkiState::update`); no PDU makes it leave by itself. -/
+
+inductive RStatus where
+  | done
+  | waiting
+  | panic
+  | wedge
+  | storm
+  deriving DecidableEq, Repr
+
+structure RObs where
+  status : RStatus
+  rx : Nat
+  deriving DecidableEq, Repr
+
+/-- PDUs the receive counters of `RpkiState` count -/
+def counted : RtrMsg → Bool
+  | .serialNotify _ _ => true
+  | .cacheResponse _ => true
+  | .prefix _ _ _ _ _ => true
+  | .endOfData _ _ _ _ _ => true
+  | .cacheReset => true
+  | .errorReport _ => true
+  | _ => false
+
+def runRtrSess (chunks : List Bytes) (eof : Bool) : RObs :=
+  let recs := rtrStream [] chunks
+  let rx := (recs.filter fun r => match r with | .pdu _ _ m => counted m | _ => false).length
+  if recs.any (fun r => r == .panic || r == .stall) then ⟨.panic, rx⟩
+  else if eof || recs.any (fun r => match r with | .err _ _ => true | _ => false) then ⟨.done, rx⟩
+  else ⟨.waiting, rx⟩
+
+open Spec in
+def checkRtrSess (eof : Bool) (o : RObs) : Verdict :=
+  match o.status with
+  | .panic => .fail 0 "panic"
+  | .wedge => .fail 0 "rtr-client-did-not-come-back"
+  | .storm => .fail 0 "rtr-client-keeps-running-without-input"
+  | .waiting => if eof then .fail 0 "rtr-client-kept-after-the-cache-closed" else .ok
+  | .done => .ok
 
 end Rbgp.Wire.Sess
